@@ -312,6 +312,7 @@ type symPath struct {
 	lookVer map[ssa.Value]int
 	cells   map[*ssa.Alloc]ssa.Value // last value stored into a local cell on this path
 	loads   map[ssa.Value]ssa.Value  // load instruction -> the value it read from a local cell
+	plain   map[*types.Var]ssa.Value // tracked plain field -> last value assigned on this path
 	sum     PathSummary
 }
 
@@ -413,7 +414,7 @@ func Summarize(cfg *SymConfig) []PathSummary {
 	}
 	st := &symPath{cfg: cfg, pred: map[*ssa.BasicBlock]*ssa.BasicBlock{}, env: map[ssa.Value]Lin{},
 		ints: map[string]Lin{}, mapVer: map[string]int{}, lookVer: map[ssa.Value]int{},
-		cells: map[*ssa.Alloc]ssa.Value{}, loads: map[ssa.Value]ssa.Value{}}
+		cells: map[*ssa.Alloc]ssa.Value{}, loads: map[ssa.Value]ssa.Value{}, plain: map[*types.Var]ssa.Value{}}
 	st.sum.Assigns = map[string]string{}
 	walk(start, nil, st, map[*ssa.BasicBlock]bool{})
 	return out
@@ -422,7 +423,10 @@ func Summarize(cfg *SymConfig) []PathSummary {
 func (s *symPath) fork() *symPath {
 	n := &symPath{cfg: s.cfg, pred: map[*ssa.BasicBlock]*ssa.BasicBlock{}, env: map[ssa.Value]Lin{},
 		ints: map[string]Lin{}, mapVer: map[string]int{}, lookVer: map[ssa.Value]int{},
-		cells: map[*ssa.Alloc]ssa.Value{}, loads: map[ssa.Value]ssa.Value{}}
+		cells: map[*ssa.Alloc]ssa.Value{}, loads: map[ssa.Value]ssa.Value{}, plain: map[*types.Var]ssa.Value{}}
+	for k, v := range s.plain {
+		n.plain[k] = v
+	}
 	for k, v := range s.cells {
 		n.cells[k] = v
 	}
@@ -492,6 +496,16 @@ func (s *symPath) step(in ssa.Instruction) {
 					s.loads[x] = v
 				}
 			}
+			if fa, ok := x.X.(*ssa.FieldAddr); ok {
+				f := FieldOfAddr(fa)
+				for k := range s.cfg.PlainFields {
+					if fieldIs(f, k) {
+						if v, has := s.plain[k]; has {
+							s.loads[x] = v
+						}
+					}
+				}
+			}
 			if name, ok := s.trackedInt(x.X); ok {
 				cur, has := s.ints[name]
 				if !has {
@@ -515,6 +529,7 @@ func (s *symPath) step(in ssa.Instruction) {
 			for k, name := range s.cfg.PlainFields {
 				if fieldIs(f, k) {
 					s.sum.Assigns[name] = s.term(x.Val)
+					s.plain[k] = x.Val
 				}
 			}
 		}
